@@ -176,7 +176,8 @@ CONFIG = {
         "ground truth of scripts with GC / AutoGC: the blob set and tag map before and after the interrupted call are observed on disk (killed before its first system call / completed run) instead of simulated; plain scripts keep the generator's simulator",
         "digest-and-size verification (content.NewVerifyReader, SHA-256) is the Section variable H: a content c matches the name d iff H c = d; no property of H is assumed",
         "encoding/json of index.json / oci-layout is abstracted: a file holds the marshalled entry list as one write unit and parses back to it; Go's map iteration order in saveIndex is the Section variable shuffle with hypothesis In e (shuffle c l) <-> In e l",
-        "one descriptor per digest (the generator's universe); references are never digest strings; manifests are well-formed JSON (graph.Index succeeds)",
+        "descriptors: Tag/Delete are also generated with a digest+size-only descriptor (MediaType \"\") of the same blob; the model identifies a blob by its digest (after fix 89e7351 so does Store.delete). A descriptor whose media type LIES about the content (a layer tagged as a manifest) is a caller inconsistency outside the quantifier; since db2ff94 Tag refuses it. References are never digest strings",
+        "manifests that do not decode are generated (blob kind badmanifest): the model has no notion of decodability; the driver translates Push of such content into the composite [Push bytes; Delete] (stored, unindexable, removed again) and Tag into a refused call -- this translation is part of the trusted driver, the composite theorem covers the resulting step lists; 'oci.New succeeds' includes decoding every indexed manifest only in the oracle (real oci.New), not in the Coq predicate index_ok",
         "write(2) is modelled as all-or-nothing at system-call granularity (the process is killed at system-call entries); C10_no_in_place_write shows that only temporaries are ever written, so torn writes cannot reach a file a reader looks at",
         "oci.New on an existing layout is modelled as: no change on disk, tag resolver := loadIndex(index.json) (Model reopen/load); graph.IndexAll during loading is not modelled (it only reads)",
         "crash points = entries of the file-system system calls (strace trace set in harness/crashkit10/trace.go) of the thread running the operation; other system calls (futex, mmap, signals) do not change the directory",
